@@ -504,6 +504,34 @@ class FG:
         op = self.rng.choice(['ext8', 'uext8', 'ext16', 'uext16', 'ext32', 'uext32'])
         self.emit(op, self.dst64(), self.src32())
 
+    def g_ext_chain(self):
+        # an extension consumed by another one through a register used nowhere else (the generator's
+        # post-RA combine merges such pairs; only some width/sign pairs may be merged)
+        r = self.rng
+        exts = ['ext8', 'uext8', 'ext16', 'uext16', 'ext32', 'uext32']
+        t = self.new_local('ec')
+        src = self.X_() if r.random() < 0.7 else self.src32()
+        self.emit(r.choice(exts), R(t), src)
+        self.emit(r.choice(exts), self.dst64(), R(t))
+        self.p.features.add('ext:chain')
+
+    def g_reload(self):
+        # the same location read twice with the same width and the other signedness (or the same one):
+        # redundant-load elimination must not reuse the first load's extension
+        r = self.rng
+        w = r.choice(['8', '16', '32'])
+        m = self.mem_operand('i' + w)
+        if m is None or len(self.X) < 2: return self.g_alu64()
+        t1, t2 = r.choice([('i', 'u'), ('u', 'i'), ('i', 'u'), ('u', 'i'), ('i', 'i'), ('u', 'u')])
+        m1 = Mem(t1 + w, m.disp, m.base, m.index, m.scale, m.alias)
+        m2 = Mem(t2 + w, m.disp, m.base, m.index, m.scale, m.alias if r.random() < 0.8 else None)
+        x1, x2 = r.sample(self.X, 2)
+        self.emit('mov', R(x1), m1)
+        if r.random() < 0.3: self.g_alu64()
+        self.emit('mov', R(x2), m2)
+        if r.random() < 0.5: self.emit(r.choice(['sub', 'xor', 'add']), self.dst64(), R(x1), R(x2))
+        self.p.features.add('load:reload-' + t1 + t2)
+
     def g_cmp(self):
         r = self.rng
         if r.random() < 0.5:
@@ -784,6 +812,7 @@ class FG:
     def straight(self, n):
         r = self.rng
         kinds = [(self.g_alu64, 14), (self.g_alu32, 12), (self.g_neg, 2), (self.g_ext, 6), (self.g_cmp, 7),
+                 (self.g_ext_chain, 3), (self.g_reload, 3),
                  (self.g_shift, 7), (self.g_div, 7), (self.g_load, 8), (self.g_store, 9), (self.g_mov, 5),
                  (self.g_ovf, 2), (self.g_local_alloca, 2), (self.g_counted_loop, 3), (self.g_call_ext, 3),
                  (self.g_call_mir, self.opts.get('w_call', 4)), (self.g_self_call, 1)]
@@ -858,6 +887,12 @@ class FG:
                 if r.random() < 0.5: a = o
                 else: b = o
             self.emit(op, target, a, b)
+        elif o is None and r.random() < 0.5:
+            # truth test of an immediate: decided at link time; the short forms look at the low 32 bits only
+            self.emit(r.choice(['bt', 'bf', 'bts', 'bfs', 'bts', 'bfs']), target,
+                      Imm(r.choice([0, 1, 2, -1, 1 << 31, 1 << 32, (1 << 32) | 1, 0xffffffff00000000, 1 << 63,
+                                    -(1 << 32), 0x200000000, 0x7fffffff00000000])))
+            self.p.features.add('br:imm-truth')
         elif k < 0.8:
             self.emit(r.choice(['bt', 'bf']), target, o if o is not None else
                       (self.src64(allow_mem=False) if r.random() < 0.9 else Imm(r.choice([0, 1]))))
